@@ -29,17 +29,25 @@ class Scan:
         unknown = False
         for m, c in p.t.items():
             term = Fraction(c)
+            term_unknown = False
+            zero = False
             for a, e in m:
-                v = self.atom(a)
+                v = self.atom(a)            # every factor is visited (for its own flags) even when the term is already 0
                 if v is UNKNOWN:
-                    unknown = True
+                    term_unknown = True
                     continue
                 if v == 0 and e < 0:
                     self.flag(a, "negative power of a value that is 0 at the identity (division by zero)")
-                    unknown = True
+                    term_unknown = True
                     continue
+                if v == 0:
+                    zero = True
                 term = term * (v ** e)
-            if not unknown:
+            if zero:
+                continue                    # a zero factor times finite unknown factors (symbols are finite) is zero
+            if term_unknown:
+                unknown = True
+            else:
                 total += term
         return UNKNOWN if unknown else total
 
